@@ -380,3 +380,45 @@ rt_arm("withsub", "run_mod", r"&ImplPrimitive::WithSub\(n\)", ["C07", "C02"], [W
        ["r.is_ok() ==> ops@.len() == 1",
         "r.is_ok() ==> ({ " + let() + " let d = max(a, n as int); s.len() >= d && final(env).rt.stack@ =~= below(s, a) + node_out(f.node, top(s, a)) + top(s, d).subrange(0, n as int) })"],
        sig=RTSIGN, desc="with_n F : copies of the deepest n of max(a,n) values are put on top")
+
+# =====================================================================
+# C03: the one place where an inverse's signature is assigned
+# =====================================================================
+R6_INTO = [("R6", r"\.into\(\)", "", "identity conversion on shim types dropped")]
+U(id="C03.e2.signode.new", props=["C03", "C02"], kind="fn", file="src/tree.rs", impl=r"^impl SigNode \{", impl_name="SigNode", fn="new",
+  target="impl SigNode", ret="r", rewrites=R6_INTO,
+  head_rewrites=[("R6", r"impl Into<Signature>", "Signature", "generic conversion parameter -> shim type"), ("R6", r"impl Into<Node>", "Node", "generic conversion parameter -> shim type")],
+  ensures=["r.sig == sig && r.node == node"], desc="SigNode::new stores exactly the signature it is given")
+U(id="C03.e2.signode.un_inverse", props=["C03"], kind="fn", file="src/compile/invert/un.rs", impl=r"^impl SigNode \{", impl_name="SigNode", fn="un_inverse",
+  target="impl SigNode", ret="r",
+  ensures=["r.is_ok() ==> r.unwrap().sig.args == self.sig.outputs && r.unwrap().sig.outputs == self.sig.args"],
+  desc="whenever un F compiles, its signature is the mirror image of F's")
+U(id="C03.e2.signode.anti_inverse", props=["C03"], kind="fn", file="src/compile/invert/un.rs", impl=r"^impl SigNode \{", impl_name="SigNode", fn="anti_inverse",
+  target="impl SigNode", ret="r", requires=["self.sig.outputs < 0xFFFF"],
+  rewrites=[("R6", r"ok_or\(Generic\)", "ok_or(InversionError::Generic)", "glob-imported enum variant qualified")],
+  ensures=["r.is_ok() ==> self.sig.args >= 1 && r.unwrap().sig.args == self.sig.outputs + 1 && r.unwrap().sig.outputs == self.sig.args - 1"],
+  desc="whenever anti F compiles, its signature is the dual |o+1.a-1 (and F takes an argument)")
+
+# =====================================================================
+# C11 / C04: rollback and scoped state (src/run.rs)
+# =====================================================================
+RUN = "src/run.rs"
+U(id="C11.e2.exec_clean_stack", props=["C11", "C04", "C02"], kind="fn", file=RUN, impl=UIUAIMPL, impl_name="Uiua", fn="exec_clean_stack",
+  target="impl Uiua", ret="r", requires=["wf_sn(sn)"],
+  ensures=[
+      "scoped_same(old(self).rt, final(self).rt)",
+      # failure: exactly the pre-state minus the arguments, on both stacks
+      "r.is_err() ==> final(self).rt.stack@ =~= old(self).rt.stack@.subrange(0, monus(old(self).rt.stack@.len() as int, sn.sig.args as int))",
+      "r.is_err() ==> final(self).rt.under_stack@ =~= old(self).rt.under_stack@.subrange(0, monus(old(self).rt.under_stack@.len() as int, sn.sig.under_args as int))",
+      # success: as exec
+      "r.is_ok() ==> old(self).rt.stack@.len() >= sn.sig.args && final(self).rt.stack@ == below(old(self).rt.stack@, sn.sig.args as int) + node_out(sn.node, top(old(self).rt.stack@, sn.sig.args as int))",
+  ],
+  desc="a failing operand leaves exactly the pre-state minus its arguments on BOTH stacks (no residue), for stacks of any depth; given IH-runtime's failure clause")
+R5 = [("R5", r"in_ctx\(self\)", "in_ctx.call(self)", "closure call -> shim trait with assumed contract")]
+R5H = [("R5", r"impl FnOnce\(&mut Self\) -> (UiuaResult<T>|T)", r"impl ScopedBody<\1>", "closure parameter -> shim trait"),
+       ("R6", r"impl Into<FillFrame>", "FillFrame", "generic conversion parameter -> shim type")]
+for fname in ("with_fill", "with_unfill", "without_fill"):
+    U(id=f"C11.e2.{fname}.restores", props=["C11", "C14"][:1], kind="fn", file=RUN, impl=UIUAIMPL, impl_name="Uiua", fn=fname,
+      target="impl Uiua", ret="r", rewrites=R5 + R6_INTO, head_rewrites=R5H,
+      ensures=["scoped_same(old(self).rt, final(self).rt)"],
+      desc=f"{fname}: every scoped stack has its entry length on exit, whether the body returned Ok or Err (no `?` between push and pop)")
